@@ -766,7 +766,7 @@ func (fr *frame) callsiteObls(b *ssa.BasicBlock, st *state, ins ssa.Instruction,
 		if cl.Kind != "callsite" || cl.Target != short || cl.Loop != n {
 			continue
 		}
-		tr := vc.contractTrans(fr.ct, fr.fn, nil, st, vc.entry)
+		tr := fr.loopTrans(&loopInfo{header: b, body: map[*ssa.BasicBlock]bool{}}, st, nil)
 		f := vc.trClause(tr, cl)
 		vc.addObl(&obligation{Name: fmt.Sprintf("callsite/%s@%s#%d", cl.Label, short, n), Kind: "ensures", Label: cl.Label, Goal: and(fr.cond[b], not(f)),
 			Pos: vc.pos(ins.Pos()), Clause: cl.Src, Props: propsOfLabel(cl.Label, vc.props), Inputs: vc.inputTerms()})
